@@ -226,7 +226,10 @@ class MonitorContainerCleanup(MonitorTombstoneAction):
         cleanup = os.path.join(self._tm_env.cleanup_dir, data['id'])
 
         # pid1 will SIGABRT(6) when there is an issue
-        if int(data['signal']) == 6:
+        # NOTE: if the running link is already gone (container was
+        #       terminated) there is no container to flag; writing the flag
+        #       would create a real directory in place of the link.
+        if int(data['signal']) == 6 and os.path.exists(running):
             app_abort.flag_aborted(data_dir, why=app_abort.AbortedReason.PID1)
 
         try:
